@@ -30,6 +30,8 @@ func init() {
 			{"C13.no-stdout-in-library", "the library never prints to standard output (the archive may be written there)", 1, func(c *Ctx) { c.noStdoutInLibrary() }},
 			{"C13.mode-tables", "entry modes: file types compared under the type mask, conversions mutual inverses (shared with C05)", 3, c05ModeTables},
 			{"C13.grammar", "tar() emits Entry XAttr* (Payload|Symlink|Device|(Filename Child)* Goodbye)", 1, c13Grammar},
+			{"C13.string-terminator", "readString takes exactly the one terminating byte off a string element (shared with C05)", 1, c05StringTerminator},
+			{"C13.field-mapping", "what is packed is read from the entry being packed; the disk reader hands out clean paths (shared with C05)", 20, c05FieldMapping},
 			{"C13.codec", "encoder and decoder agree on every element type", 15, func(c *Ctx) { c.codecAgree(allElementTypes) }},
 		},
 	})
